@@ -144,6 +144,12 @@ Definition default_stats_allowed : list net := [(V4 2130706433, 32)].
 Open Scope string_scope.
 
 (* ---- operations and observations ------------------------------------------- *)
+(* the two options of a configuration file that matter here: app.trustedproxies and
+   stats.allowed_ips, each absent or a text *)
+Definition conf := (option string * option string)%type.
+(* goconf's GetString with the error ignored: an absent option reads as "" *)
+Definition opt_text (o : option string) : string := match o with Some s => s | None => "" end.
+
 Inductive op :=
 | ORealIP (trusted : option (list net)) (peer : string) (xr xff : list string)
 | OStats (endpoint : N) (trusted allow : list net) (peer : string) (xr xff : list string)
@@ -155,7 +161,15 @@ Inductive op :=
 | OCfgHub (cfg : string) (peer : string) (xr xff : list string)             (* Hub.getRealUserIP, hub started or reloaded with cfg *)
 | OCfgStats (endpoint : N) (tcfg acfg : string) (peer : string) (xr xff : list string)
 | OCfgAllowed (cfg : string) (a : ip)                                        (* ParseAllowedIps(cfg).Allowed(a) *)
-| OCfgParse (cfg : string).                                                  (* ParseAllowedIps(cfg), as net.IPNet.Contains reads the result *)
+| OCfgParse (cfg : string)                                                   (* ParseAllowedIps(cfg), as net.IPNet.Contains reads the result *)
+(* a server with a configuration HISTORY: started with one configuration file, then
+   reloaded (Hub.Reload, BackendServer.Reload; the proxy: ProxyServer.Reload) with each
+   file of the list in turn.  Of a file only the two options count, each absent (None:
+   the option or its whole section is not in the file) or present with a text. *)
+| OHistHub (start : option string) (reloads : list (option string))         (* app.trustedproxies of every file *)
+           (peer : string) (xr xff : list string)
+| OHistStats (endpoint : N) (start : conf) (reloads : list conf)
+             (peer : string) (xr xff : list string).
 
 Inductive out :=
 | VAddr (s : string)
@@ -271,6 +285,20 @@ Definition hub_trusted (cfg : string) : option (list net) :=
 Definition stats_allowed (cfg : string) : option (list net) :=
   match parse_allowed cfg with Some l => Some (or_default default_stats_allowed l) | None => None end.
 
+(* Reload (Hub.Reload for app.trustedproxies, BackendServer.Reload / ProxyServer.Reload for
+   stats.allowed_ips): the option is read again from the new file (absent = ""), an empty
+   list means the default d, a text that is refused leaves the list as it is.
+   Start (NewHub, NewBackendServer, NewProxyServer): the same reading, but a refused text
+   is an error: there is no server. *)
+Definition reload_list (d cur : list net) (o : option string) : list net :=
+  match parse_allowed (opt_text o) with Some l => or_default d l | None => cur end.
+Definition history_list (d : list net) (start : option string) (reloads : list (option string))
+  : option (list net) :=
+  match parse_allowed (opt_text start) with
+  | Some l => Some (fold_left (reload_list d) reloads (or_default d l))
+  | None => None
+  end.
+
 Definition step (o : op) : out :=
   match o with
   | ORealIP t peer xr xff => VAddr (real_ip t peer xr xff)
@@ -297,6 +325,17 @@ Definition step (o : op) : out :=
       match parse_allowed cfg with Some l => VBool (allowed l a) | None => VReject end
   | OCfgParse cfg =>
       match parse_allowed cfg with Some l => VParsed l | None => VReject end
+  | OHistHub st rl peer xr xff =>
+      match history_list default_trusted st rl with
+      | Some t => VAddr (real_ip (Some t) peer xr xff)
+      | None => VReject
+      end
+  | OHistStats e st rl peer xr xff =>
+      match history_list default_trusted (fst st) (map fst rl),
+            history_list default_stats_allowed (snd st) (map snd rl) with
+      | Some t, Some al => VStatus (endpoint_status e t al peer xr xff)
+      | _, _ => VReject
+      end
   end.
 
 Definition run (ops : list op) : list out := map step ops.
